@@ -23,6 +23,7 @@ const modPath = "go.starlark.net"
 // Prog is the resolved program under analysis: type-checked syntax, SSA and
 // (lazily) a VTA call graph of /repo's current working tree.
 type Prog struct {
+	InitFuncs []*ssa.Function // synthetic package initialisers (var x = f()) of the module's packages
 	Repo    string
 	Arch    string
 	Fset    *token.FileSet
@@ -98,6 +99,11 @@ func Load(repo, arch string, overlay map[string][]byte) (*Prog, error) {
 	p.nAllFns = len(all)
 	for fn := range all {
 		if fn.Synthetic != "" && fn.Parent() == nil && fn.Syntax() == nil {
+			if fn.Synthetic == "package initializer" && fn.Blocks != nil {
+				if pk := fnPkgPath(fn); pk == modPath || strings.HasPrefix(pk, modPath+"/") {
+					p.InitFuncs = append(p.InitFuncs, fn)
+				}
+			}
 			continue
 		}
 		if pk := fnPkgPath(fn); pk == modPath || strings.HasPrefix(pk, modPath+"/") {
